@@ -7,6 +7,11 @@ HOOK_COMMITS = ["9deeead"]
 
 # property -> (level, technique, level text, level note, design ref)
 CLAIMED = {
+ "C09": ("exploration",
+         "Go race detector over many short concurrent runs with hook-injected yields, plus per-operation equality with the sequential (fresh set) reference",
+         "Each run shares one fresh set among 2-16 goroutines doing first/repeated executions of members with shared helpers and read-only calls; verif-tagged hooks in the engine log the event order and perturb the schedule. Race reports are counted from the detector's log; every operation result is compared with the same call made alone on a fresh set. Held on the schedules that occurred (distinct interleavings are counted in the evidence).",
+         "Trusted: Go race detector (no false positives; misses races that do not occur in the executed schedules); sequential reference = engine on a fresh set.",
+         "DESIGN.md §5 C09"),
  "C05": ("exploration",
          "runtime monitor over recorded API histories: absolute no-output / tick-probe checks plus comparison with the replay-on-a-fresh-set reference",
          "Generated histories over template sets that contain members whose analysis fails in every listed mode; each Execute*/ExecuteTemplate* call is observed (bytes written, error class, a tick function counting body runs): analysis errors must be sticky, write nothing and never run the body; *ToHTML must return the zero HTML with any error.",
